@@ -28,8 +28,17 @@ def draw_once(ctx, pid):
         name = suf.split('::')[-2]
         # the cache cell: a field of self whose "unset" test (sentinel 0, or Option::None) guards the draw
         import e9
-        draws = [(bi, t) for bi, t, p in f.calls() if is_draw_call(f, bi, t, p) and short(p) != 'thread_rng']
+        draws = [(bi, t) for bi, t, p in f.calls() if is_draw_call(f, bi, t, p) and short(p) != 'thread_rng' and 'std::num::NonZero' not in p]    # (an encoder applied to the draw is not the draw)
         rngs = [(bi, t) for bi, t, p in f.calls() if short(p) == 'thread_rng' or t['callee'].get('krate') in e1.RNG_CRATES]
+        # whatever the cache cell looks like: an encoding of the draw that has a niche must be injective on draws.
+        # `NonZero::new(draw)` is `None` (= unset) for the draw 0 — only `NonZero::new(draw + 1)` remembers every draw
+        for bi, st, pl, rhs in q.stores(f):
+            r = strip_refs(rhs)
+            if r[0] == 'call' and 'NonZero' in r[1] and short(r[1]) in ('new', 'new_unchecked') and r[2] and q.find_sub(pl, lambda s: s[0] == 'param' and s[1] == 1) is not None:
+                a0 = strip_refs(norm(r[2][0]))
+                raw = a0[0] == 'call' and any(facts.show(a0) == facts.show(strip_refs(norm(f.call_expr(t_, b_)))) for b_, t_ in draws)
+                ctx.verdict(not raw, rule, '%s:%s:zero-draw-remembered' % (rule, name), 'a cached draw encoded with a niche keeps every draw apart from "unset": NonZero::new(draw + 1), never NonZero::new(draw)',
+                            f.where(bi), 'stored %s' % facts.show(r)[:80], breaks='outcome 0 is never remembered: after drawing it, the next node of the same chance infoset draws again within the pass')
         cell = None
         for bi, t in draws + rngs:
             for c in f.conds(bi):
@@ -59,6 +68,14 @@ def draw_once(ctx, pid):
                     stored = True
                 if r[0] == 'agg' and r[1].endswith('Option::Some') and r[2] and strip_refs(r[2][0]) == draw_e:
                     stored = True
+                if r[0] == 'call' and 'NonZero' in r[1] and short(r[1]) in ('new', 'new_unchecked') and r[2]:
+                    # the niche form of the sentinel: Option<NonZeroUsize> holding draw + 1
+                    a1 = strip_refs(r[2][0])
+                    def is_draw_(x_):
+                        x_ = strip_refs(x_)
+                        return x_ == draw_e or (x_[0] == 'var' and strip_refs(f.local_expr(x_[1])) == draw_e)
+                    if a1[0] == 'bin' and a1[1] == 'Add' and ((is_const(a1[3], 1) and is_draw_(a1[2])) or (is_const(a1[2], 1) and is_draw_(a1[3]))):
+                        stored = True
         ctx.verdict(stored, rule, '%s:%s:cache-set' % (rule, name), 'on the drawing path the cache cell is assigned the draw (`draw + 1` / `Some(draw)`)', f.where(0), 'found: %s' % stored,
                     breaks='the next node of the same infoset draws again')
         # returned values
@@ -69,6 +86,10 @@ def draw_once(ctx, pid):
             v = strip_refs(v)
             if v[0] == 'bin' and v[1] == 'Sub' and norm(v[2]) == norm(cell) and is_const(v[3], 1):
                 return True
+            if v[0] == 'bin' and v[1] == 'Sub' and is_const(v[3], 1):
+                g_ = strip_refs(norm(v[2]))
+                if g_[0] == 'call' and 'NonZero' in g_[1] and short(g_[1]) == 'get' and q.find_sub(g_, lambda s_: norm(s_) == norm(cell)) is not None:
+                    return True     # Option<NonZeroUsize> cell: Some(n) => n.get() - 1
             if v[0] == 'field' and v[2] == '0' and strip_refs(v[1])[0] == 'downcast' and strip_refs(v[1])[2] == 'Some':
                 inner = norm(strip_refs(v[1])[1])
                 # Some(d) of an Option cell, or the sentinel decoded by `cell.checked_sub(1)` (= cell - 1 when set)
